@@ -26,6 +26,7 @@ PROPS = {
     "C02": "vf.harness.deser_e2e",
     "C03": "vf.harness.C03",
     "C04": "vf.harness.C04",
+    "C06": "vf.harness.C06",
 }
 
 
@@ -82,6 +83,7 @@ def worker(job):
             budget_s=job.get("budget_s", 30),
             path_timeout=job.get("path_timeout", 8.0),
             max_paths=job.get("max_paths", 10**9),
+            want_samples=getattr(inst, "want_samples", 2),
         )
         out.update(res.as_dict())
         out["functions"] = getattr(inst, "functions", [])
@@ -100,6 +102,10 @@ def worker(job):
             except Exception as e:  # replay itself crashed: not a reproduction
                 f["reproduced"] = False
                 f["replay_error"] = f"{type(e).__name__}: {e}"
+        if hasattr(inst2, "js_triples"):
+            out["js_triples"] = inst2.js_triples(
+                [s_["witness"] for s_ in out["samples"]] + [f["witness"] for f in out["failures"][:5]]
+            )
         if res.failures:
             out["status"] = "violated"
         elif res.exhausted:
